@@ -5,6 +5,7 @@ package gohlslib
 // C16: the multivariant playlist truthfully describes tracks, renditions and bitrate (engine E1 observation).
 
 import (
+	"bytes"
 	"fmt"
 	"regexp"
 	"sort"
@@ -135,6 +136,15 @@ func c16Check(r *e1run, k int) {
 	if len(mv.Variants) != 1 {
 		r.add("C16", "variant-count", "index.m3u8 lists %d variants", len(mv.Variants))
 		return
+	}
+	// the query string of one request says nothing about the next: another viewer's request in between, then the same request
+	// again - same answer
+	if k%3 == 1 {
+		other := r.safeGet("index.m3u8?viewer=someone-else&t=1")
+		again := r.get("index.m3u8")
+		if other.Status == 200 && again.Status == 200 && !bytes.Equal(again.Body.Bytes(), st.index) {
+			r.add("C16", "index-depends-on-earlier-request", "index.m3u8 requested again after another viewer's request (index.m3u8?viewer=someone-else&t=1) differs from the answer to the same request before it (write %d):\n%s\nbefore:\n%s", w, canon(again.Body.String()), canon(string(st.index)))
+		}
 	}
 	v := mv.Variants[0]
 	m := r.mi.m
